@@ -151,7 +151,7 @@ def judge_obs(sheet, settings, ob, extra_names=()):
             while n and n not in seen:
                 seen.add(n)
                 props.add(n)
-                n = O.var_name(sheet.defs[n][1]) if n in sheet.defs else None
+                n = O.var_name(sheet.defs_css[n]) if n in sheet.defs_css else None
     a = masked_tree(sheet.text, adjusted, props)
     b = masked_tree(ob["out_text"], adjusted, props)
     if a != b:
